@@ -50,6 +50,7 @@ func (s *State) pathCond() *Term { return And(s.pc...) }
 
 type Obligation struct {
 	Name   string
+	PosKey int
 	Kind   string
 	Tags   []string
 	Func   string
@@ -90,6 +91,7 @@ type Exec struct {
 	inlined  map[string]bool
 	axioms   []*Term // quantified background axioms (count functions etc.)
 	ufRange  map[string]*Term
+	noFacts  bool
 	counts   map[string]*countDef
 }
 
@@ -169,12 +171,8 @@ func (x *Exec) oblige(st *State, kind, hint string, tags []string, goal *Term, p
 	if hint != "" {
 		base += ":" + hint
 	}
-	x.names[base]++
 	name := base
-	if n := x.names[base]; n > 1 {
-		name = fmt.Sprintf("%s#%d", base, n)
-	}
-	o := &Obligation{Name: name, Kind: kind, Tags: tags, Func: x.fn.Key, Pkg: x.fn.Pkg.Name, Pos: x.pos(p), Clause: clause,
+	o := &Obligation{Name: name, PosKey: int(p), Kind: kind, Tags: tags, Func: x.fn.Key, Pkg: x.fn.Pkg.Name, Pos: x.pos(p), Clause: clause,
 		Hyps: st.pc[:len(st.pc):len(st.pc)], Goal: goal}
 	x.obls = append(x.obls, o)
 }
@@ -196,10 +194,9 @@ func (x *Exec) lazyInit(key string, T types.Type, ep *Epoch) Value {
 		return x.symbolic(name, T, func(n string, s Sort) *Term { return Var(n, s) })
 	}
 	// heap field: every component is an array from Ref
-	saveFacts := x.facts
-	x.facts = map[int]*Term{} // range facts do not apply to the lifted arrays themselves
+	x.noFacts = true // facts do not apply to the lifted arrays themselves
 	v := x.symbolic("heap."+name, T, func(n string, s Sort) *Term { return Var(n, ArraySort(SRef, s)) })
-	x.facts = saveFacts
+	x.noFacts = false
 	return v
 }
 
@@ -330,4 +327,35 @@ func (x *Exec) mergeAll(sts []*State) *State {
 		out = x.merge(out, s)
 	}
 	return out
+}
+
+// nameSites gives path instances of one source site the same name, and numbers
+// distinct sites that share a base name in source order.
+func nameSites(obls []*Obligation) {
+	byBase := map[string][]int{}
+	for _, o := range obls {
+		found := false
+		for _, p := range byBase[o.Name] {
+			if p == o.PosKey {
+				found = true
+			}
+		}
+		if !found {
+			byBase[o.Name] = append(byBase[o.Name], o.PosKey)
+		}
+	}
+	for _, ps := range byBase {
+		sort.Ints(ps)
+	}
+	for _, o := range obls {
+		ps := byBase[o.Name]
+		if len(ps) > 1 {
+			for i, p := range ps {
+				if p == o.PosKey && i > 0 {
+					o.Name = fmt.Sprintf("%s#%d", o.Name, i+1)
+					break
+				}
+			}
+		}
+	}
 }
